@@ -397,9 +397,12 @@ impl Campaign for C17 {
 pub fn run(ctx: &Ctx) -> i32 {
     let started = Instant::now();
     if let Some(p) = &ctx.replay {
+        if crate::fuzzdrive::is_artifact(p) {
+            return crate::fuzzdrive::replay_file("C17", "crypto", p);
+        }
         return runner::replay(&C17, p);
     }
-    let stats = runner::run_campaign(&C17, ctx, if ctx.thorough() { 30_000 } else { 2_000 });
+    let stats = runner::run_campaign(&C17, ctx, if ctx.thorough() { 60_000 } else { 10_000 });
     let mut ev = Evidence::default();
     ev.level = "exploration".into();
     ev.rule = "random well-formed transactions (1-19 inputs/outputs, scripts and witnesses up to several KB) and random ids: round-trip identity; decryption under another id (random / one bit off / same 16-byte locator prefix) and of a modified ciphertext (bit flip, truncation, extension) must fail; locator = id[..16]; random messages and keys: recovery returns the signer, altered messages (bit flip, append, drop, prepend) and altered signatures (bit flip in the decoded 65 bytes, symbol replaced by another value, insert, delete, non-alphabet symbol, truncation) never verify. Every case is non-trivial; distinct = distinct (mutation classes, sizes).".into();
@@ -408,5 +411,12 @@ pub fn run(ctx: &Ctx) -> i32 {
         "the (r, n-s) ECDSA twin is outside the stated mutation classes".into(),
         "transactions have at least one input".into(),
     ];
-    runner::conclude(ctx, "C17", stats, ev, started)
+    let mut stats = stats;
+    let inconclusive = crate::fuzzdrive::attach(ctx, "C17", "crypto", &mut stats, &mut ev, 8, 150000, 1024);
+    let code = runner::conclude(ctx, "C17", stats, ev, started);
+    if code == 0 && inconclusive {
+        2
+    } else {
+        code
+    }
 }
